@@ -3,7 +3,7 @@
 /tmp/seed/out/<id>/ and the seedcheck logs in /verif/out/seed_<id>*.log."""
 import glob, json, os, re, shutil, sys
 props = {json.loads(l)['id']: json.loads(l) for l in open('/verif/properties.jsonl')}
-ROUNDS = [('/tmp/seed/out', '', 'seed_'), ('/tmp/seed2/out', '-b', 'seed2_'), ('/tmp/seed3/out', '-c', 'seed3_'), ('/tmp/seed4/out', '-d', 'seed4_'), ('/tmp/seed5/out', '-e', 'seed5_'), ('/tmp/seed6/out', '-f', 'seed6_'), ('/tmp/seed7/out', '-g', 'seed7_'), ('/tmp/seed8/out', '-h', 'seed8_')]
+ROUNDS = [('/tmp/seed/out', '', 'seed_'), ('/tmp/seed2/out', '-b', 'seed2_'), ('/tmp/seed3/out', '-c', 'seed3_'), ('/tmp/seed4/out', '-d', 'seed4_'), ('/tmp/seed5/out', '-e', 'seed5_'), ('/tmp/seed6/out', '-f', 'seed6_'), ('/tmp/seed7/out', '-g', 'seed7_'), ('/tmp/seed8/out', '-h', 'seed8_'), ('/tmp/seed9/out', '-i', 'seed9_')]
 for d, suffix, logtag in [(d, sfx, tag) for root, sfx, tag in ROUNDS for d in sorted(glob.glob(root + '/C*'))]:
     pid = os.path.basename(d)
     if not os.path.exists(os.path.join(d, 'patch.diff')):
